@@ -60,14 +60,15 @@ def run(prog, rep, tier='quick'):
         if not caps:
             rep.undecided('pad', f.qname, label, 'no return captured', where)
             continue
-        rp = [e for e in itp.events if e[0] == 'resize-repeat' and e[2] == f.qname]
+        here = {f.qname} | {q_ for q_ in itp.trace if q_.startswith('correlation.')}        # CORRELATION and its private helpers
+        rp = [e for e in itp.events if e[0] == 'resize-repeat' and e[2] in here]
         for e in rp:
             rep.violation('pad', f.qname, '%s [%s]' % (normalise(e[1]), label), 'numpy.resize fills the longer array with repeated copies '
                           'of the data: the shorter input is periodically extended, not zero-padded', loc(f.mod, e[1]))
         if rp:
             continue
         # where the samples sit after each length equalisation (ndarray.resize / numpy.pad): at the front, zeros behind
-        for e in [e_ for e_ in itp.events if e_[0] == 'padded' and e_[3] == f.qname]:
+        for e in [e_ for e_ in itp.events if e_[0] == 'padded' and e_[3] in here]:
             pv = e[2]
             segs = SG.normalise(pv.seg) if isinstance(pv, Num) and pv.seg is not None else None
             c = 'placement %s [%s]' % (normalise(e[1])[:60], label)
